@@ -98,3 +98,18 @@ Proof. exact pump_drains. Qed.
 Theorem c04_lazy_pump_refuted :
   exists ops l, got_of l (fold_left (pstep_lazy 1024) ops pinit) <> s_got (srun 1024 l sinit ops).
 Proof. exact lazy_pump_refuted. Qed.
+
+From CRS Require Import Model.EventsCap Proofs.EventsCapProofs.
+(** Listeners with channels of any capacity, reading at any pace (the pump's send
+    blocks while a registered listener's channel is full): in every reachable state
+    every registered listener has been handed - received or waiting in its channel -
+    exactly the events the pump has taken off the event channel since it
+    registered, in order.  A pump which skips full listeners is refuted: a
+    listener with a channel of one loses the disconnected event. *)
+Theorem c04_no_listener_misses_an_event : forall ops,
+  Forall (complete (c_done (crun cinit ops))) (c_ls (crun cinit ops)).
+Proof. exact nobody_misses_an_event. Qed.
+Theorem c04_best_effort_pump_refuted :
+  exists ops, let s := fold_left cstep_drop ops cinit in
+    c_done s = [0; 1] /\ map (fun l => l_got l ++ l_box l) (c_ls s) = [[0]].
+Proof. exact dropping_pump_refuted. Qed.
